@@ -40,67 +40,58 @@ pub fn strongly_connected_components(n_nodes: usize, edges: &[(usize, usize)]) -
     let mut stack = Vec::new();
     let mut components = Vec::new();
 
-    fn strongconnect(
-        v: usize,
-        adj: &[Vec<usize>],
-        index_counter: &mut usize,
-        indices: &mut [Option<usize>],
-        lowlinks: &mut [usize],
-        on_stack: &mut [bool],
-        stack: &mut Vec<usize>,
-        components: &mut Vec<Vec<usize>>,
-    ) {
-        indices[v] = Some(*index_counter);
-        lowlinks[v] = *index_counter;
-        *index_counter += 1;
-        stack.push(v);
-        on_stack[v] = true;
+    // Iterative Tarjan: an explicit stack of (node, position in its adjacency list) frames replaces the
+    // recursion, so the depth of the search is bounded by the heap, not by the native stack.
+    let mut frames: Vec<(usize, usize)> = Vec::new();
 
-        for &w in &adj[v] {
-            if indices[w].is_none() {
-                strongconnect(
-                    w,
-                    adj,
-                    index_counter,
-                    indices,
-                    lowlinks,
-                    on_stack,
-                    stack,
-                    components,
-                );
-                lowlinks[v] = lowlinks[v].min(lowlinks[w]);
-            } else if on_stack[w] {
-                lowlinks[v] = lowlinks[v].min(indices[w].unwrap());
-            }
+    for root in 0..n_nodes {
+        if indices[root].is_some() {
+            continue;
         }
 
-        // If v is a root node, pop the stack and generate an SCC
-        if lowlinks[v] == indices[v].unwrap() {
-            let mut component = Vec::new();
-            loop {
-                let w = stack.pop().unwrap();
-                on_stack[w] = false;
-                component.push(w);
-                if w == v {
-                    break;
+        indices[root] = Some(index_counter);
+        lowlinks[root] = index_counter;
+        index_counter += 1;
+        stack.push(root);
+        on_stack[root] = true;
+        frames.push((root, 0));
+
+        while let Some(&(v, pos)) = frames.last() {
+            if pos < adj[v].len() {
+                let w = adj[v][pos];
+                frames.last_mut().unwrap().1 = pos + 1;
+
+                if indices[w].is_none() {
+                    // Tree edge: descend into w (the low-link of v is updated when w's frame is popped)
+                    indices[w] = Some(index_counter);
+                    lowlinks[w] = index_counter;
+                    index_counter += 1;
+                    stack.push(w);
+                    on_stack[w] = true;
+                    frames.push((w, 0));
+                } else if on_stack[w] {
+                    lowlinks[v] = lowlinks[v].min(indices[w].unwrap());
+                }
+            } else {
+                // All neighbours of v are done: if v is a root node, pop the stack and generate an SCC
+                if lowlinks[v] == indices[v].unwrap() {
+                    let mut component = Vec::new();
+                    loop {
+                        let w = stack.pop().unwrap();
+                        on_stack[w] = false;
+                        component.push(w);
+                        if w == v {
+                            break;
+                        }
+                    }
+                    components.push(component);
+                }
+
+                frames.pop();
+                if let Some(&(parent, _)) = frames.last() {
+                    lowlinks[parent] = lowlinks[parent].min(lowlinks[v]);
                 }
             }
-            components.push(component);
-        }
-    }
-
-    for v in 0..n_nodes {
-        if indices[v].is_none() {
-            strongconnect(
-                v,
-                &adj,
-                &mut index_counter,
-                &mut indices,
-                &mut lowlinks,
-                &mut on_stack,
-                &mut stack,
-                &mut components,
-            );
         }
     }
 
